@@ -1,0 +1,112 @@
+//go:build verif
+
+// Functional contracts of the XML reader over the decoder's token sequence (reader halves of C03/C11/C12), read by
+// /verif/engine (govc). Hand-written; comments only.
+//
+// Vocabulary (CONTRACTS.md, "xml decoder"): xmlPos() tokens consumed so far; xmlTok(i)/tokIsStart/tokIsEnd/tokLocal/tokAttrs
+// the i-th token of the fixed sequence; xmlDepth(i) nesting depth before token i; xmlOpen(e) the start tag matching the
+// end tag at e. The DIRECT CHILDREN of the element whose content starts at p0 are found by walking back from a position
+// p at the element's own level: a token p-1 that is an end tag closes the child that starts at xmlOpen(p-1).
+package document
+
+// av(k, n): the value of attribute n (local name) of the start tag at position k, as getAttributeValue finds it.
+//@ spec av(k int, n string) string = attrVal(tokAttrs(k), n)
+// header/footer references: kind and relationship id, by the reader's fallback rule (type, else w:type; id, else r:id)
+//@ spec hfType(k int) string = ite(av(k, "type") != "", av(k, "type"), av(k, "w:type"))
+//@ spec hfID(k int) string = ite(av(k, "id") != "", av(k, "id"), av(k, "r:id"))
+// sectQual(k): the child that starts at k carries something (an element without any of its attributes defines nothing)
+//@ spec sectQual(k int) bool = ite(tokLocal(k) == "pgSz", av(k, "w") != "" || av(k, "h") != "", ite(tokLocal(k) == "cols", av(k, "space") != "" || av(k, "num") != "", ite(tokLocal(k) == "docGrid", av(k, "type") != "" || av(k, "linePitch") != "" || av(k, "charSpace") != "", ite(tokLocal(k) == "headerReference" || tokLocal(k) == "footerReference", hfType(k) != "" || hfID(k) != "", true))))
+// closesKid(p0, p): token p-1 is the end tag of a complete child that starts at or behind p0
+//@ spec closesKid(p0 int, p int) bool = p > 0 && tokIsEnd(p - 1) && p0 <= xmlOpen(p - 1) && xmlOpen(p - 1) < p - 1
+// lastKid(p0, p, name): start position of the last qualifying child named name among the complete children in [p0, p); -1: none
+//@ spec lastKid(p0 int, p int, name string) int = ite(p <= p0 || p <= 0, -1, ite(closesKid(p0, p), ite(tokLocal(xmlOpen(p - 1)) == name && sectQual(xmlOpen(p - 1)), xmlOpen(p - 1), lastKid(p0, xmlOpen(p - 1), name)), lastKid(p0, p - 1, name)))
+// kidCnt(p0, p, name): number of qualifying children named name among the complete children in [p0, p)
+//@ spec kidCnt(p0 int, p int, name string) int = ite(p <= p0 || p <= 0, 0, ite(closesKid(p0, p), kidCnt(p0, xmlOpen(p - 1), name) + ite(tokLocal(xmlOpen(p - 1)) == name && sectQual(xmlOpen(p - 1)), 1, 0), kidCnt(p0, p - 1, name)))
+
+// What the section settings object holds, given that the children of the w:sectPr element are the complete children in [p0, p):
+//@ spec sectPgSz(s *SectionProperties, k int) bool = ite(k < 0, s.PageSize == nil, s.PageSize != nil && s.PageSize.W == av(k, "w") && s.PageSize.H == av(k, "h") && s.PageSize.Orient == av(k, "orient"))
+//@ spec sectPgMar(s *SectionProperties, k int) bool = ite(k < 0, s.PageMargins == nil, s.PageMargins != nil && s.PageMargins.Top == av(k, "top") && s.PageMargins.Right == av(k, "right") && s.PageMargins.Bottom == av(k, "bottom") && s.PageMargins.Left == av(k, "left") && s.PageMargins.Header == av(k, "header") && s.PageMargins.Footer == av(k, "footer") && s.PageMargins.Gutter == av(k, "gutter"))
+//@ spec sectCols(s *SectionProperties, k int) bool = ite(k < 0, s.Columns == nil, s.Columns != nil && s.Columns.Space == av(k, "space") && s.Columns.Num == av(k, "num"))
+//@ spec sectGrid(s *SectionProperties, k int) bool = ite(k < 0, s.DocGrid == nil, s.DocGrid != nil && s.DocGrid.Type == av(k, "type") && s.DocGrid.LinePitch == av(k, "linePitch") && s.DocGrid.CharSpace == av(k, "charSpace"))
+// different first page: on iff the last w:titlePg child does not switch it off (w:val 0/false/off)
+//@ spec sectTitlePg(s *SectionProperties, k int) bool = (s.TitlePage != nil) == (k >= 0 && av(k, "val") != "0" && av(k, "val") != "false" && av(k, "val") != "off")
+//@ spec sectPgNum(s *SectionProperties, k int) bool = ite(k < 0, s.PageNumType == nil, s.PageNumType != nil && s.PageNumType.Fmt == av(k, "fmt"))
+// kidEnd(p0, e, d, name): e is the end tag of a qualifying direct child named name of the element at depth d
+//@ spec kidEnd(p0 int, e int, d int, name string) bool = p0 <= e && tokIsEnd(e) && xmlDepth(e + 1) == d && tokLocal(xmlOpen(e)) == name && sectQual(xmlOpen(e))
+
+// parseSectionProperties (C11: header/footer references survive reopening, one entry per reference element, in document
+// order, none dropped; C12/C03: page size, orientation, margins, columns and grid are read back exactly as the attributes
+// say - the LAST element of a kind wins, as in the object model, which has one slot per kind). Called right behind the
+// start tag <w:sectPr ...>, returns right behind its matching end tag.
+//@ func (*Document).parseSectionProperties
+//@ props C06, C11, C12, C03
+//@ appendfacts
+//@ requires d != nil && decoder != nil
+//@ requires xmlPos() >= 1 && tokIsStart(xmlPos() - 1) && tokLocal(xmlPos() - 1) == "sectPr"
+//@ ensures xmlRem() <= old(xmlRem())
+//@ ensures old(d.Body) != nil ==> d.Body != nil
+//@ ensures old(d.Body) != nil && old(elemsOK(d.Body.Elements)) ==> elemsOK(d.Body.Elements)
+//@ ensures err == nil ==> result0 != nil
+//@ ensures xmlPos() >= old(xmlPos())
+//@ ensures err == nil ==> xmlPos() > old(xmlPos()) && tokIsEnd(xmlPos() - 1) && xmlDepth(xmlPos()) == old(xmlDepth(xmlPos())) - 1
+//@ ensures err == nil ==> forall k int :: {xmlDepth(k)} old(xmlPos()) <= k && k < xmlPos() ==> xmlDepth(k) >= old(xmlDepth(xmlPos()))
+//@ ensures err == nil ==> sectPgSz(result0, lastKid(old(xmlPos()), xmlPos() - 1, "pgSz"))
+//@ ensures err == nil ==> sectPgMar(result0, lastKid(old(xmlPos()), xmlPos() - 1, "pgMar"))
+//@ ensures err == nil ==> sectCols(result0, lastKid(old(xmlPos()), xmlPos() - 1, "cols"))
+//@ ensures err == nil ==> sectGrid(result0, lastKid(old(xmlPos()), xmlPos() - 1, "docGrid"))
+//@ ensures err == nil ==> sectTitlePg(result0, lastKid(old(xmlPos()), xmlPos() - 1, "titlePg"))
+//@ ensures err == nil ==> sectPgNum(result0, lastKid(old(xmlPos()), xmlPos() - 1, "pgNumType"))
+//@ ensures err == nil ==> len(result0.HeaderReferences) == kidCnt(old(xmlPos()), xmlPos() - 1, "headerReference")
+//@ ensures err == nil ==> len(result0.FooterReferences) == kidCnt(old(xmlPos()), xmlPos() - 1, "footerReference")
+//@ ensures err == nil ==> forall e int :: {xmlOpen(e)} e < xmlPos() - 1 && kidEnd(old(xmlPos()), e, old(xmlDepth(xmlPos())), "headerReference") ==> 0 <= kidCnt(old(xmlPos()), xmlOpen(e), "headerReference") && kidCnt(old(xmlPos()), xmlOpen(e), "headerReference") < len(result0.HeaderReferences) && live(result0.HeaderReferences[kidCnt(old(xmlPos()), xmlOpen(e), "headerReference")]) && result0.HeaderReferences[kidCnt(old(xmlPos()), xmlOpen(e), "headerReference")] != nil && result0.HeaderReferences[kidCnt(old(xmlPos()), xmlOpen(e), "headerReference")].Type == hfType(xmlOpen(e)) && result0.HeaderReferences[kidCnt(old(xmlPos()), xmlOpen(e), "headerReference")].ID == hfID(xmlOpen(e))
+//@ ensures err == nil ==> forall e int :: {xmlOpen(e)} e < xmlPos() - 1 && kidEnd(old(xmlPos()), e, old(xmlDepth(xmlPos())), "footerReference") ==> 0 <= kidCnt(old(xmlPos()), xmlOpen(e), "footerReference") && kidCnt(old(xmlPos()), xmlOpen(e), "footerReference") < len(result0.FooterReferences) && live(result0.FooterReferences[kidCnt(old(xmlPos()), xmlOpen(e), "footerReference")]) && result0.FooterReferences[kidCnt(old(xmlPos()), xmlOpen(e), "footerReference")] != nil && result0.FooterReferences[kidCnt(old(xmlPos()), xmlOpen(e), "footerReference")].Type == hfType(xmlOpen(e)) && result0.FooterReferences[kidCnt(old(xmlPos()), xmlOpen(e), "footerReference")].ID == hfID(xmlOpen(e))
+//@ loop 1
+//@   invariant xmlRem() <= old(xmlRem())
+//@   invariant old(d.Body) != nil ==> d.Body != nil
+//@   invariant old(d.Body) != nil && old(elemsOK(d.Body.Elements)) ==> elemsOK(d.Body.Elements)
+//@   invariant sectPr != nil && fresh(sectPr)
+//@   invariant xmlPos() >= old(xmlPos()) && xmlDepth(xmlPos()) == old(xmlDepth(xmlPos()))
+//@   invariant forall k int :: {xmlDepth(k)} old(xmlPos()) <= k && k < xmlPos() ==> xmlDepth(k) >= old(xmlDepth(xmlPos()))
+//@   invariant sectPgSz(sectPr, lastKid(old(xmlPos()), xmlPos(), "pgSz"))
+//@   invariant sectPgMar(sectPr, lastKid(old(xmlPos()), xmlPos(), "pgMar"))
+//@   invariant sectCols(sectPr, lastKid(old(xmlPos()), xmlPos(), "cols"))
+//@   invariant sectGrid(sectPr, lastKid(old(xmlPos()), xmlPos(), "docGrid"))
+//@   invariant sectTitlePg(sectPr, lastKid(old(xmlPos()), xmlPos(), "titlePg"))
+//@   invariant sectPgNum(sectPr, lastKid(old(xmlPos()), xmlPos(), "pgNumType"))
+//@   invariant len(sectPr.HeaderReferences) == kidCnt(old(xmlPos()), xmlPos(), "headerReference")
+//@   invariant len(sectPr.FooterReferences) == kidCnt(old(xmlPos()), xmlPos(), "footerReference")
+//@   invariant forall e int :: {xmlOpen(e)} e < xmlPos() && kidEnd(old(xmlPos()), e, old(xmlDepth(xmlPos())), "headerReference") ==> 0 <= kidCnt(old(xmlPos()), xmlOpen(e), "headerReference") && kidCnt(old(xmlPos()), xmlOpen(e), "headerReference") < len(sectPr.HeaderReferences) && live(sectPr.HeaderReferences[kidCnt(old(xmlPos()), xmlOpen(e), "headerReference")]) && sectPr.HeaderReferences[kidCnt(old(xmlPos()), xmlOpen(e), "headerReference")] != nil && sectPr.HeaderReferences[kidCnt(old(xmlPos()), xmlOpen(e), "headerReference")].Type == hfType(xmlOpen(e)) && sectPr.HeaderReferences[kidCnt(old(xmlPos()), xmlOpen(e), "headerReference")].ID == hfID(xmlOpen(e))
+//@   invariant forall e int :: {xmlOpen(e)} e < xmlPos() && kidEnd(old(xmlPos()), e, old(xmlDepth(xmlPos())), "footerReference") ==> 0 <= kidCnt(old(xmlPos()), xmlOpen(e), "footerReference") && kidCnt(old(xmlPos()), xmlOpen(e), "footerReference") < len(sectPr.FooterReferences) && live(sectPr.FooterReferences[kidCnt(old(xmlPos()), xmlOpen(e), "footerReference")]) && sectPr.FooterReferences[kidCnt(old(xmlPos()), xmlOpen(e), "footerReference")] != nil && sectPr.FooterReferences[kidCnt(old(xmlPos()), xmlOpen(e), "footerReference")].Type == hfType(xmlOpen(e)) && sectPr.FooterReferences[kidCnt(old(xmlPos()), xmlOpen(e), "footerReference")].ID == hfID(xmlOpen(e))
+//@   decreases xmlRem()
+
+// parseRun, the text of a run (C03: "same text, including leading/trailing spaces"; C04: the text carried by a run is not lost):
+// the run's text is the character data of its LAST w:t child, untrimmed whatever xml:space says, and Text.Space is that
+// child's space attribute. Stated for token sequences in which a text element holds at most one character-data token and no
+// markup (plainT; WordprocessingML's w:t has simple content) - readElementText stops at the first end tag named "t", so with
+// a start tag inside a w:t the walker's position is not determined by the nesting any more (see the report: no claim there).
+//@ spec plainT(p0 int) bool = forall s int :: {xmlTok(s)} p0 <= s && tokIsStart(s) && tokLocal(s) == "t" ==> tokIsEnd(s + 1) || (tokIsChar(s + 1) && tokIsEnd(s + 2))
+// lastKidEnd(p0, p, name): position of the END tag of the last complete child named name among the children in [p0, p); -1: none
+//@ spec lastKidEnd(p0 int, p int, name string) int = ite(p <= p0 || p <= 0, -1, ite(closesKid(p0, p), ite(tokLocal(xmlOpen(p - 1)) == name, p - 1, lastKidEnd(p0, xmlOpen(p - 1), name)), lastKidEnd(p0, p - 1, name)))
+//@ spec runText(r *Run, e int) bool = ite(e < 0, r.Text.Content == "" && r.Text.Space == "", r.Text.Content == charsCat(xmlOpen(e) + 1, e) && r.Text.Space == av(xmlOpen(e), "space"))
+//@ func (*Document).parseRun
+//@ props C06, C03, C04
+//@ requires d != nil && decoder != nil
+//@ requires xmlPos() >= 1 && tokIsStart(xmlPos() - 1) && tokLocal(xmlPos() - 1) == "r"
+//@ ensures xmlRem() <= old(xmlRem())
+//@ ensures old(d.Body) != nil ==> d.Body != nil
+//@ ensures old(d.Body) != nil && old(elemsOK(d.Body.Elements)) ==> elemsOK(d.Body.Elements)
+//@ ensures err == nil ==> result0 != nil
+//@ ensures xmlPos() >= old(xmlPos())
+//@ ensures err == nil && plainT(old(xmlPos())) ==> xmlPos() > old(xmlPos()) && tokIsEnd(xmlPos() - 1) && xmlDepth(xmlPos()) == old(xmlDepth(xmlPos())) - 1
+//@ ensures err == nil && plainT(old(xmlPos())) ==> forall k int :: {xmlDepth(k)} old(xmlPos()) <= k && k < xmlPos() ==> xmlDepth(k) >= old(xmlDepth(xmlPos()))
+//@ ensures err == nil && plainT(old(xmlPos())) ==> runText(result0, lastKidEnd(old(xmlPos()), xmlPos() - 1, "t"))
+//@ loop 1
+//@   invariant xmlRem() <= old(xmlRem())
+//@   invariant old(d.Body) != nil ==> d.Body != nil
+//@   invariant old(d.Body) != nil && old(elemsOK(d.Body.Elements)) ==> elemsOK(d.Body.Elements)
+//@   invariant run != nil && fresh(run)
+//@   invariant xmlPos() >= old(xmlPos())
+//@   invariant plainT(old(xmlPos())) ==> xmlDepth(xmlPos()) == old(xmlDepth(xmlPos()))
+//@   invariant plainT(old(xmlPos())) ==> forall k int :: {xmlDepth(k)} old(xmlPos()) <= k && k < xmlPos() ==> xmlDepth(k) >= old(xmlDepth(xmlPos()))
+//@   invariant plainT(old(xmlPos())) ==> runText(run, lastKidEnd(old(xmlPos()), xmlPos(), "t"))
+//@   decreases xmlRem()
